@@ -10,9 +10,11 @@ namespace Restic.Model.RestoreTree
     calls it from all four visitor call sites (first pass enterDir + visitNode, second pass
     visitNode + leaveDir). `false` on the unmodified source (finding F13). -/
 def chainFixOfSource : Bool :=
-  Restic.Gen.restorer_ensureDir_calls.contains "filepath.Rel" &&
-  Restic.Gen.restorer_ensureDir_calls.contains "strings.Split" &&
-  (Restic.Gen.restorer_ensureDir_calls.filter (· == "ensureSingleDir")).length == 2 &&
+  -- exactly the call structure that `ensureDir` of the model transcribes: Rel, the "below dst"
+  -- check, `ensureSingleDir(dst)`, then one `ensureSingleDir` per component of `strings.Split`
+  Restic.Gen.restorer_ensureDir_calls ==
+    ["filepath.Rel", "string", "strings.HasPrefix", "fmt.Errorf", "ensureSingleDir", "string",
+     "strings.Split", "filepath.Join", "ensureSingleDir"] &&
   (Restic.Gen.restorer_RestoreTo_calls.filter (· == "res.ensureDir")).length == 4
 
 /-- `restoreNodeMetadataTo` looks at the item with `fs.Lstat` before `fs.NodeRestoreMetadata`.
